@@ -835,6 +835,48 @@ class Program:
 # ---------------------------------------------------------------------------
 # EDPE: enum-dispatch partial evaluation
 
+def _eval_num(e, dk, v, depth=0):
+    """Integer value of an expression whose only non-constant leaf is the dispatch expression (== v); else None.
+    Casts are value-preserving except to unsigned char / unsigned int (reduced modulo the type)."""
+    if e is None or depth > 12:
+        return None
+    cv = const_value(e)
+    if cv is not None:
+        return cv
+    k = e["k"]
+    if k in ("ParenExpr", "ConstantExpr"):
+        return _eval_num(e["c"][0], dk, v, depth + 1) if e.get("c") else None
+    if key(e) in dk:
+        return v
+    if k in ("ImplicitCastExpr", "CStyleCastExpr"):
+        x = _eval_num(e["c"][0], dk, v, depth + 1) if e.get("c") else None
+        if x is None:
+            return None
+        t = (e.get("t") or "").replace("const ", "").strip()
+        if t == "unsigned char":
+            return x & 0xff
+        if t in ("unsigned int", "unsigned"):
+            return x & 0xffffffff
+        if t in ("unsigned long", "size_t", "unsigned long long"):
+            return x & 0xffffffffffffffff
+        return x
+    if k == "BinaryOperator" and e["op"] in ("&", "|", "^", "+", "-", "*", "<<", ">>"):
+        a, b = _eval_num(e["c"][0], dk, v, depth + 1), _eval_num(e["c"][1], dk, v, depth + 1)
+        if a is None or b is None:
+            return None
+        try:
+            return {"&": a & b, "|": a | b, "^": a ^ b, "+": a + b, "-": a - b, "*": a * b,
+                    "<<": a << b if 0 <= b < 64 else None, ">>": a >> b if 0 <= b < 64 else None}[e["op"]]
+        except (ValueError, TypeError):
+            return None
+    if k == "UnaryOperator" and e["op"] in ("-", "~", "+"):
+        a = _eval_num(e["c"][0], dk, v, depth + 1)
+        if a is None:
+            return None
+        return {"-": -a, "~": ~a, "+": a}[e["op"]]
+    return None
+
+
 def _cmp_decide(n, dkey, v, consts=None):
     """Decide a condition expression for dispatch key == v.  Returns True/False/None."""
     n = strip(n)
@@ -845,6 +887,14 @@ def _cmp_decide(n, dkey, v, consts=None):
         op = n["op"]
         a, b = n["c"]
         if op in ("==", "!=", "<", ">", "<=", ">="):
+            dk0 = dkey if isinstance(dkey, (set, frozenset)) else {dkey}
+            if const_value(a) is None and const_value(b) is None:
+                # both sides are expressions over the dispatch value, e.g. `(int) c == ((int) c & 127)`
+                mentions = any(key(x) in dk0 for x in walk(a)) or any(key(x) in dk0 for x in walk(b))
+                if mentions:
+                    ea, eb = _eval_num(a, dk0, v), _eval_num(b, dk0, v)
+                    if ea is not None and eb is not None:
+                        return {"==": ea == eb, "!=": ea != eb, "<": ea < eb, ">": ea > eb, "<=": ea <= eb, ">=": ea >= eb}[op]
             ka, kb = key(a), key(b)
             ca, cb = const_value(a), const_value(b)
             lhs = rhs = None
